@@ -138,6 +138,35 @@ Proof.
     reflexivity.
 Qed.
 
+(* inside the control record: an ASCII control record (what the library writes) that is blank from
+   column b on, cut at or behind column b (after c characters, b <= c <= 94, or after all 94 and in
+   front of / inside the line end): the padded line IS the control record, Read + Validate return
+   the very same tree.  With C04_truncation_blank_tail (b = 55, ADV 71 for a written control record)
+   this settles every offset behind the last significant column. *)
+Theorem c04_valid_reader_truncation_blank_tail s le g0 b c :
+  le_ok le -> file_typed s = true -> utf8_records s -> bridge_okb LT s = true ->
+  accepts LT RT AT (write le s) = Some g0 ->
+  asciib (f_ctl s) = true -> skipn b (f_ctl s) = repeat sp (94 - b) -> b <= c <= 94 -> 1 <= c ->
+  accepts LT RT AT (firstn (length (text_of le (body s)) + c) (write le s)) = Some g0.
+Proof.
+  intros Hle Ht Hu Hb Ha Hasc Hblank Hc Hc1.
+  pose proof (uline_ascii_good _ (uline_ctl s Hu) Hasc) as Hg. pose proof Hg as (Hl & _).
+  rewrite <- Ha.
+  assert (Efirst : firstn (length (text_of le (body s)) + c) (write le s) = text_of le (body s) ++ firstn c (f_ctl s)).
+  { rewrite text_of_body, firstn_app_2. f_equal.
+    change (text_of le (f_ctl s :: repeat nines (pad_count (length (record_lines s)))))
+      with ((f_ctl s ++ le) ++ text_of le (repeat nines (pad_count (length (record_lines s))))).
+    rewrite <- app_assoc, firstn_app, Hl. replace (c - 94) with 0 by lia. cbn [firstn]. now rewrite app_nil_r. }
+  rewrite Efirst.
+  pose proof (lines_good_prefix le (body s) (f_ctl s) c Hle (Forall_uline_body s Hu) Hg ltac:(lia)) as HL.
+  unfold tail_of in HL. destruct (Nat.eqb_spec c 0) as [|_]; [lia|].
+  rewrite (cut_in_blank_tail (f_ctl s) b c Hl Hc Hblank), <- record_lines_body in HL.
+  rewrite (accepts_lines _ _ HL).
+  rewrite write_text_of, (accepts_lines _ _ (lines_written le _ Hle (physical_u s Hu))).
+  unfold read_file_valid, physical_lines.
+  now rewrite (g_read_file_pads _ _ _ (record_lines s) (repeat nines _)) by (apply Forall_repeat, padl_nines).
+Qed.
+
 (* ---- non-vacuity ---------------------------------------------------------------------------------- *)
 
 (* the written lines of the IAT and of the ADV example file of C01 *)
@@ -193,3 +222,14 @@ Lemma vx_adv_truncated :
   map (fun k => accept_code LT RT AT (firstn k (write LF_b vx_adv))) [95 * 3 + 7; 95 * 9 + 30; 95 * 9 + 80; 95 * 10 - 1]
   = [1; 3; 0; 0] /\ length (record_lines vx_adv) = 10 /\ length (write LF_b vx_adv) = 950.
 Proof. vm_compute. repeat split; reflexivity. Qed.
+
+(* the control record of the standard example is blank from column 55 on: cut after 60 characters *)
+Example vx_blank_tail_by_theorem :
+  exists g0, accepts LT RT AT (write CRLF_b vx) = Some g0
+    /\ accepts LT RT AT (firstn (length (text_of CRLF_b (body vx)) + 60) (write CRLF_b vx)) = Some g0.
+Proof.
+  destruct vx_accepted as [g0 Ha]. destruct vx_ok as (Ht & Hb & _). exists g0. split; [exact Ha|].
+  assert (Hasc : asciib (f_ctl vx) = true) by (vm_compute; reflexivity).
+  assert (Hbl : skipn 55 (f_ctl vx) = repeat sp (94 - 55)) by (vm_compute; reflexivity).
+  exact (c04_valid_reader_truncation_blank_tail vx CRLF_b g0 55 60 (or_intror eq_refl) Ht vx_utf8 Hb Ha Hasc Hbl ltac:(lia) ltac:(lia)).
+Qed.
